@@ -1,4 +1,5 @@
-(* C20 -- concrete witnesses: where the faithful writer model violates the property, and non-vacuity examples *)
+(* C20 -- concrete reachable states: the configurations that failed before the repairs 2cde078 / 34184b3 / 07417cb
+   (regression theorems) and non-vacuity examples *)
 From Coq Require Import ZArith List Bool PeanoNat Lia ZifyBool.
 From OV.model Require Import M_C20.
 From OV.proofs Require Import L_C20.
@@ -29,65 +30,55 @@ Ltac dec_solve := idtac; cbn; repeat (cbn; match goal with
   | H : _ = _ |- _ => discriminate H
   end).
 Ltac dsolve := first [solve [dec_solve] | solve [left; dec_solve] | solve [right; dec_solve]].
-Ltac unf := unfold wf_writer, nodal_ok, dict_ok, field_ok, in_range, all_nodes_written_if_spheres, no_cell_data_with_edges.
+Ltac unf := unfold wf_writer, dict_ok, field_ok, in_range.
 Ltac conds := repeat match goal with |- _ /\ _ => split end; unf; dsolve.
 Ltac vmr := repeat match goal with |- _ /\ _ => split end; vm_compute; reflexivity.
 
-(* F9: spheres >= 1 and nodal fields >= 1: write() leaves padded rows in the state, the second file differs and is unreadable *)
-Lemma double_write_witness : exists w0 w1, init m1 = Some w0 /\ add_nodal_field w0 1 [[q 5]; [q 6]; [q 7]] SCALARS DOUBLE = Some w1 /\
+(* formerly F9: a nodal field and a sphere, written twice *)
+Lemma double_write_regression : exists w0 w1, init m1 = Some w0 /\ add_nodal_field w0 1 [[q 5]; [q 6]; [q 7]] SCALARS DOUBLE = Some w1 /\
   let w := add_sphere w1 (q 2) (q 2) (q 1) in
-  (wf_writer w /\ in_range w /\ all_nodes_written_if_spheres w /\ no_cell_data_with_edges w)
-  /\ parse (fst (write w)) = Some (abstract w)
-  /\ fst (write (snd (write w))) <> fst (write w)
-  /\ parse (fst (write (snd (write w)))) = None
-  /\ ~ wf_writer (snd (write w)).
+  (wf_writer w /\ in_range w)
+  /\ parse (fst (write w)) = Some (abstract w) /\ check (abstract w) = true
+  /\ snd (write w) = w /\ fst (write (snd (write w))) = fst (write w)
+  /\ parse (fst (write (snd (write w)))) = Some (abstract w).
 Proof.
   eexists. eexists. split; [vm_compute; reflexivity |]. split; [vm_compute; reflexivity |]. cbv zeta.
-  split; [conds |]. split; [vm_compute; reflexivity |]. split; [| split].
-  - intros H. apply (f_equal (@length tok)) in H. vm_compute in H. discriminate.
-  - vm_compute. reflexivity.
-  - intros (_ & _ & [_ H] & _). vm_compute in H. inversion H as [| ? ? [[H1 _] | [H1 _]] _]; discriminate.
+  split; [conds |]. vmr.
 Qed.
 
-(* F10: element order 3: sphere_radius and POINT_DATA use the all-node count, POINTS the output-node count *)
-Lemma sphere_radius_count_witness : exists w0, init m3 = Some w0 /\
+(* formerly F10: element order 3 (10 nodes, 3 written) with a sphere: POINTS 4, POINT_DATA 4, sphere_radius has 4 records *)
+Lemma sphere_radius_count_regression : exists w0, init m3 = Some w0 /\
   let w := add_sphere w0 (q 1) (q 1) (q 1) in
-  (wf_writer w /\ in_range w /\ no_cell_data_with_edges w /\ w_nall w <> length (w_points w))
-  /\ exists d n arrs, parse (fst (write w)) = Some d /\ d_pd d = Some (n, arrs) /\ length (d_pts d) = 4 /\ n = 11
-                      /\ c_pd d = false /\ check d = false.
+  (wf_writer w /\ in_range w /\ w_nall w <> length (w_points w))
+  /\ parse (fst (write w)) = Some (abstract w) /\ check (abstract w) = true
+  /\ exists arrs, d_pd (abstract w) = Some (4, arrs) /\ length (d_pts (abstract w)) = 4.
 Proof.
   eexists. split; [vm_compute; reflexivity |]. cbv zeta. split; [conds |].
-  eexists. eexists. eexists. split; [vm_compute; reflexivity |]. cbn [d_pd]. split; [reflexivity |]. vmr.
+  split; [vm_compute; reflexivity |]. split; [vm_compute; reflexivity |]. eexists. split; vm_compute; reflexivity.
 Qed.
 
-(* F11: CELL_DATA declares the mesh elements only although CELLS also lists the contact-edge cells *)
-Lemma cell_data_count_witness : exists w0 w1, init m1 = Some w0 /\ add_cell_field w0 1 [[q 5]] SCALARS INT = Some w1 /\
+(* formerly F11: a cell field together with a contact edge: CELLS 2, CELL_TYPES 2, CELL_DATA 2 *)
+Lemma cell_data_count_regression : exists w0 w1, init m1 = Some w0 /\ add_cell_field w0 1 [[q 5]] SCALARS INT = Some w1 /\
   let w := add_contact_edges w1 [(0, 1)] in
-  (wf_writer w /\ in_range w /\ all_nodes_written_if_spheres w)
-  /\ exists d n arrs, parse (fst (write w)) = Some d /\ d_cd d = Some (n, arrs) /\ length (d_cells d) = 2 /\ n = 1
-                      /\ c_cd d = false /\ check d = false.
+  (wf_writer w /\ in_range w)
+  /\ parse (fst (write w)) = Some (abstract w) /\ check (abstract w) = true
+  /\ exists arrs, d_cd (abstract w) = Some (2, arrs) /\ length (d_cells (abstract w)) = 2.
 Proof.
   eexists. eexists. split; [vm_compute; reflexivity |]. split; [vm_compute; reflexivity |]. cbv zeta. split; [conds |].
-  eexists. eexists. eexists. split; [vm_compute; reflexivity |]. cbn [d_cd]. split; [reflexivity |]. vmr.
+  split; [vm_compute; reflexivity |]. split; [vm_compute; reflexivity |]. eexists. split; vm_compute; reflexivity.
 Qed.
 
-(* non-vacuity: (a) nodal tensor field + cell vector field, (b) nodal field + sphere + contact edge on a linear mesh *)
-Lemma nonvacuous_a : exists w0 w1 w2, init m1 = Some w0
-  /\ add_nodal_field w0 1 [[q 1; q 2; q 3; q 4]; [q 5; q 6; q 7; q 8]; [q 9; q 1; q 2; q 3]] TENSORS FLOAT = Some w1
+(* non-vacuity: everything at once on the cubic element -- tensor nodal field, vector cell field, two spheres, contact edges *)
+Lemma nonvacuous_all : exists w0 w1 w2, init m3 = Some w0
+  /\ add_nodal_field w0 1 [[q 1; q 2; q 3; q 4]; [q 5; q 6; q 7; q 8]; [q 9; q 1; q 2; q 3]; [q 1; q 1; q 1; q 1];
+                           [q 2; q 2; q 2; q 2]; [q 3; q 3; q 3; q 3]; [q 4; q 4; q 4; q 4]; [q 5; q 5; q 5; q 5];
+                           [q 6; q 6; q 6; q 6]; [q 7; q 7; q 7; q 7]] TENSORS FLOAT = Some w1
   /\ add_cell_field w1 2 [[q 1; q 2]] VECTORS INT = Some w2
-  /\ (wf_writer w2 /\ in_range w2 /\ all_nodes_written_if_spheres w2 /\ no_cell_data_with_edges w2)
-  /\ parse (fst (write w2)) = Some (abstract w2) /\ check (abstract w2) = true.
-Proof.
-  do 3 eexists. do 3 (split; [vm_compute; reflexivity |]). split; [conds | vmr].
-Qed.
-
-Lemma nonvacuous_b : exists w0 w1, init m1 = Some w0
-  /\ add_nodal_field w0 1 [[q 1; q 2]; [q 5; q 6]; [q 9; q 1]] VECTORS DOUBLE = Some w1
-  /\ let w := add_contact_edges (add_sphere w1 (q 2) (q 2) (q 1)) [(0, 3)] in
-     (w_spheres w <> [] /\ w_edges w <> [] /\ w_nodal w <> [])
-  /\ (wf_writer w /\ in_range w /\ all_nodes_written_if_spheres w /\ no_cell_data_with_edges w)
+  /\ let w := add_contact_edges (add_sphere (add_sphere w2 (q 2) (q 2) (q 1)) (q 4) (q 4) (q 2)) [(0, 3); (4, 1)] in
+     (w_spheres w <> [] /\ w_edges w <> [] /\ w_nodal w <> [] /\ w_cell w <> [] /\ w_nall w <> length (w_points w))
+  /\ (wf_writer w /\ in_range w)
   /\ parse (fst (write w)) = Some (abstract w) /\ check (abstract w) = true.
 Proof.
-  do 2 eexists. do 2 (split; [vm_compute; reflexivity |]). cbv zeta.
+  do 3 eexists. do 3 (split; [vm_compute; reflexivity |]). cbv zeta.
   split; [repeat split; vm_compute; discriminate |]. split; [conds | vmr].
 Qed.
